@@ -35,6 +35,23 @@ def module_ast(modname):
     return _cache[modname]
 
 
+def _split_qualpath(qualpath):
+    """Dotted path whose parts may be `<lambda a, b~marker text>` (the marker may itself contain dots)"""
+    parts, cur, depth = [], "", 0
+    for ch in qualpath:
+        if ch == "<":
+            depth += 1
+        elif ch == ">":
+            depth -= 1
+        if ch == "." and depth == 0:
+            parts.append(cur)
+            cur = ""
+        else:
+            cur += ch
+    parts.append(cur)
+    return parts
+
+
 def find_def(modname, qualpath):
     """
     Find a (possibly nested) def / class by dotted path inside a module.
@@ -43,8 +60,27 @@ def find_def(modname, qualpath):
     """
     tree, src, p = module_ast(modname)
     node = tree
-    for part in qualpath.split("."):
+    for part in _split_qualpath(qualpath):
         found = None
+        if part.startswith("<lambda "):
+            # `<lambda ARGS~MARKER>`: the one lambda with exactly these parameter names whose body mentions MARKER, turned
+            # mechanically into `def _lambda(ARGS): return <body>` (nothing dropped: a lambda IS its return expression)
+            spec = part[len("<lambda "):-1]
+            argnames, _sep, marker = spec.partition("~")
+            want = [a_.strip() for a_ in argnames.split(",") if a_.strip()]
+            cands = [l for l in ast.walk(node) if isinstance(l, ast.Lambda) and [a_.arg for a_ in l.args.args] == want and not l.args.vararg and not l.args.kwarg
+                     and not l.args.kwonlyargs and not l.args.posonlyargs and marker in ast.unparse(l.body)]
+            # keep only the innermost candidates (a lambda that contains another candidate is not the one meant)
+            cands = [l for l in cands if not any(m is not l and any(x is m for x in ast.walk(l)) for m in cands)]
+            if len(cands) != 1:
+                return None, None, p
+            lam = cands[0]
+            fd = ast.FunctionDef(name="_lambda", args=lam.args, body=[ast.Return(value=lam.body)], decorator_list=[], returns=None, type_comment=None, type_params=[])
+            ast.copy_location(fd, lam)
+            ast.copy_location(fd.body[0], lam.body)
+            ast.fix_missing_locations(fd)
+            node = fd
+            continue
         # search this node's body first, then any nested statement (ifs, etc.)
         for child in ast.walk(node):
             if child is node:
